@@ -694,8 +694,14 @@ def corrupted(trace: dict) -> list[tuple[str, dict]]:
         return t["k"] == "iterm" or (t["k"] == "kitty" and gfx[t["x"]]["a"] == "T")
 
     evs = trace["events"]
+    def composite(ev):
+        return ev["op"] in ("redraw", "same") and ev["lay"]["k"] not in ("txt", "img")
+
     for i, e in enumerate(evs):
-        if e["op"] == "redraw" and any(is_del(t) for t in e["toks"]) and any(is_tx(t) for t in e["toks"]):
+        # a deletion whose absence must matter: between two composite redraws (not right after a
+        # clear, when the terminal is empty anyway, nor next to a bare leaf canvas)
+        if (i > 0 and e["op"] == "redraw" and composite(e) and composite(evs[i - 1])
+                and any(is_del(t) for t in e["toks"]) and any(is_tx(t) for t in e["toks"])):
             c = copy()
             c["events"][i]["toks"] = [t for t in e["toks"] if not is_del(t)]
             out.append(("deletions-removed", c))
@@ -827,6 +833,12 @@ def main(rep: Report, replay: dict | None) -> None:
     for it in items[:3]:
         rep.sample({"source": it["scn"].get("source"), "ident": it["scn"]["ident"],
                     "ops": [o["op"] for o in it["scn"]["ops"]][:30]})
+    rep.exhaustive = all(m["complete"] for m in rep.extra.get("model_checking", {}).values()) and all(
+        c["not_replayed"] == 0 for c in rep.extra.get("edge_cover", {}).values())
+    rep.extra["exhaustive_scope"] = (
+        "TLC: complete state graphs of the MC_Urwid* configurations named in model_checking (8x5 screen, "
+        "3 widget slots, layout families of UrwidScreen.tla, unbounded history length); replay: every edge "
+        "of the coarse-view edge dumps named in edge_cover.  Seeded histories are samples.")
     j = rep.extra["judged"]
     if not j.get("implied") or not j.get("deletes"):
         raise MachineryError(f"vacuous run: no placements / no deletions were judged: {j}")
